@@ -87,6 +87,17 @@ TReopened ==
     /\ Ev.stateOk
     /\ UNCHANGED vars
 
+\* concurrent driver: a call's result without a projection (other calls may follow at once), and
+\* the projection of the quiescent node at the end
+TDoneLite == Step("DoneLite") /\ pc.k = "idle" /\ ret = Ev.ret /\ UNCHANGED vars
+TState ==
+    /\ Step("State")
+    /\ pc.k = "idle"
+    /\ mem = Ev.mem /\ best = Ev.best /\ blk = Ev.blk /\ sta = Ev.sta
+    /\ led.utxo = ToSet(Ev.utxo) /\ led.fc = TripleSet(Ev.fc) /\ led.exp = ExpOf(Ev.exp)
+    /\ Ev.stateOk
+    /\ UNCHANGED vars
+
 TPoll ==
     /\ Step("Poll")
     /\ subs[Ev.s] = Ev.from
@@ -107,7 +118,7 @@ TBlks == /\ Step("Blks") /\ pc.k = "idle"
 
 TraceNext ==
     \/ TReset \/ TSubmit \/ TSubmitV \/ THist \/ THdrs \/ TBlks \/ TRevert \/ TApply \/ TMidFlush \/ TFinish \/ TFail \/ TPanic
-    \/ TPrune \/ TCrash \/ TDone \/ TReopened \/ TPoll \/ TMinReorg
+    \/ TPrune \/ TCrash \/ TDoneLite \/ TState \/ TDone \/ TReopened \/ TPoll \/ TMinReorg
 
 TraceSpec == TraceInit /\ [][TraceNext]_tvars
 
